@@ -373,6 +373,10 @@ def join(a: AVal, b: AVal) -> AVal:
             if "?" in a.axes and "?" in b.axes:
                 ax = ("R", "?") if len(a.axes) >= 2 and len(b.axes) >= 2 else ("?",)
                 a, b = replace(a, axes=ax), replace(b, axes=ax)
+            elif ("?" in a.axes or "?" in b.axes) and set(a.axes) | set(b.axes) <= {"?", "K", "R"}:
+                # opaque tensors of the pipeline domain (shape not tracked beyond a possible leading row axis)
+                ax = tuple(x if x == y else "?" for x, y in zip(a.axes, b.axes)) if len(a.axes) == len(b.axes) else ("?",)
+                a, b = replace(a, axes=ax), replace(b, axes=ax)
             else:
                 return Unk(f"join of axes {a.axes}/{b.axes}")
         return TV(
@@ -499,6 +503,12 @@ def join_objects(a: "ObjV", b: "ObjV", depth: int = 0) -> AVal:
 
 def _join_dtype(a, b):
     if a == b:
+        return a
+    # "the dtype of the key this value belongs to" met with "the dtype of the elements of collection X": the claim about X is the
+    # one a consumer can check against its target collection
+    if a == "dt:=key" and isinstance(b, str) and b.startswith("dt:"):
+        return b
+    if b == "dt:=key" and isinstance(a, str) and a.startswith("dt:"):
         return a
     if a == "Py":
         return b
